@@ -20,6 +20,8 @@ def _run(prop, prefixes, what, tier, seed, replay, extra=None):
     rep = Report(prop, tier, "model_checking")
     engine.report_engine(rep, tier, seed, prop, prefixes, what)
     mc.report_mc(rep, prop, tier, seed)
+    if prop in ("C04", "C08", "C09", "C17"):
+        engine.strict_stage(rep, tier, seed, prop)
     if extra:
         extra(rep, tier, seed)
     rep.assumptions += ASSUME
